@@ -29,6 +29,12 @@ PARS = [
     {'n_geos_max': 2},
     {'n_geos_max': 2, 'treatment_geos_range': [2, 3]},
     {'n_test': 14, 'n_pretest_max': 20},
+    # analysis window exactly n_test + 3 dates (the smallest the property
+    # admits): 3 pre-test points remain for the A/A test
+    {'n_test': 14, 'n_pretest_max': 17},
+    {'n_test': 7, 'n_pretest_max': 10},
+    {'n_test': 7, 'n_pretest_max': 10, 'n_designs': 3,
+     'geo_ratio_tolerance': 1.0},
     {'n_test': 14, 'n_pretest_max': 20, 'treatment_geos_range': [1, 3],
      'geo_ratio_tolerance': 1.0},
     {'n_test': 30},                                   # precondition fails
